@@ -53,17 +53,17 @@ type GenOpt struct {
 	DatInLFS bool   // *.dat files are committed as pointers and tracked (export histories)
 	Fixup    string // "", "plain", "attrs-added-later", "attrs-removed-later", "nested", "macro"
 	// NestedDatAttrs: (export histories) files below a/ are tracked by a/.gitattributes in addition to the root pattern
-	NestedDatAttrs bool
-	Exotic         string // at most one exotic commit feature per case ("" = none)
-	Sizes          []int  // extra sizes that must occur among *.dat / *.png files (threshold neighbourhood)
-	NoBin          bool   // no pre-existing LFS files at all (and possibly no .gitattributes)
-	Gitlink        bool
-	TagOfTag       bool // allow an annotated tag whose object is another annotated tag
+	NestedDatAttrs   bool
+	Exotic           string // at most one exotic commit feature per case ("" = none)
+	Sizes            []int  // extra sizes that must occur among *.dat / *.png files (threshold neighbourhood)
+	NoBin            bool   // no pre-existing LFS files at all (and possibly no .gitattributes)
+	Gitlink          bool
+	TagOfTag         bool // allow an annotated tag whose object is another annotated tag
 	NoNestedBinAttrs bool // do not drop an a/b/.gitattributes that tracks *.bin
-	BinUnderAB     bool // an already-tracked LFS file lives below a/b/ from the first commit on
-	MergeOnlyLFS   bool // every merge commit adds a fresh LFS file that the next commit deletes again
-	NoEvilMerge    bool // merge commits carry no changes of their own
-	AvoidSize      int // no generated file has exactly this size (keeps the --above boundary out of unrelated cases)
+	BinUnderAB       bool // an already-tracked LFS file lives below a/b/ from the first commit on
+	MergeOnlyLFS     bool // every merge commit adds a fresh LFS file that the next commit deletes again
+	NoEvilMerge      bool // merge commits carry no changes of their own
+	AvoidSize        int  // no generated file has exactly this size (keeps the --above boundary out of unrelated cases)
 }
 
 type Gen struct {
@@ -77,15 +77,15 @@ type Gen struct {
 	BrO  []string       // branch names in creation order
 	Tags []string
 
-	blobBy   map[string]string // sha256(content) -> git blob sha
-	ptrBy    map[string]string // sha256(content) -> git blob sha of its pointer
-	pool     [][]byte
-	tick     int
-	exoticAt int
-	attrFlip int // commit number at which the fixup attribute line is added / removed
-	sizesLeft []int
-	ExoticCommit int // idx of the commit carrying opt.Exotic (-1 none)
-	TagLabels map[string]string // refs/tags/x -> "lightweight" | "annotated" | "annotated-tag-of-tag"
+	blobBy       map[string]string // sha256(content) -> git blob sha
+	ptrBy        map[string]string // sha256(content) -> git blob sha of its pointer
+	pool         [][]byte
+	tick         int
+	exoticAt     int
+	attrFlip     int // commit number at which the fixup attribute line is added / removed
+	sizesLeft    []int
+	ExoticCommit int               // idx of the commit carrying opt.Exotic (-1 none)
+	TagLabels    map[string]string // refs/tags/x -> "lightweight" | "annotated" | "annotated-tag-of-tag"
 }
 
 func (g *Gen) logf(f string, a ...any) { g.Log = append(g.Log, fmt.Sprintf(f, a...)) }
@@ -225,7 +225,7 @@ func (g *Gen) attrsBlob(lines ...string) Ent {
 	return Ent{Mode: "100644", Sha: g.blob([]byte(strings.Join(lines, "\n") + "\n"))}
 }
 
-// rootAttrs returns the root .gitattributes of a fresh root tree (nil = none).
+// initialTree returns the attribute files of a fresh root tree.
 func (g *Gen) initialTree() Tree {
 	t := Tree{}
 	var lines []string
@@ -267,9 +267,14 @@ func isAttrPath(p string) bool { return path.Base(p) == ".gitattributes" }
 
 // mutate applies 1..3 file operations to t.
 func (g *Gen) mutate(t Tree) {
+	for _, p := range keysOf(t, func(p string, e Ent) bool { return strings.HasPrefix(p, "merged-") }) {
+		delete(t, p) // (MergeOnlyLFS) files added by a merge commit live in that commit only
+	}
 	n := 1 + g.r.Intn(3)
 	for i := 0; i < n; i++ {
-		files := keysOf(t, func(p string, e Ent) bool { return !isAttrPath(p) && (e.Mode == "100644" || e.Mode == "100755") })
+		files := keysOf(t, func(p string, e Ent) bool {
+			return !isAttrPath(p) && !strings.HasPrefix(p, "merged-") && (e.Mode == "100644" || e.Mode == "100755")
+		})
 		k := g.r.Intn(100)
 		switch {
 		case k < 34 || len(files) == 0: // data file (import candidates)
@@ -412,24 +417,18 @@ func (g *Gen) setBranch(name string, idx int) {
 	g.Br[name] = idx
 }
 
-func (g *Gen) fixupFlip(t Tree, n int) {
-	if n != g.attrFlip {
-		return
+// fixupFlip changes the tracking of *.dat in the root .gitattributes WITHOUT touching the files.
+func (g *Gen) fixupFlip(t Tree) {
+	var lines []string
+	if !g.opt.NoBin {
+		lines = append(lines, "*.bin "+lfsAttrs)
 	}
 	switch g.opt.Fixup {
 	case "attrs-added-later":
-		lines := []string{}
-		if !g.opt.NoBin {
-			lines = append(lines, "*.bin "+lfsAttrs)
-		}
 		t[".gitattributes"] = g.attrsBlob(append(lines, "*.dat "+lfsAttrs)...)
 		g.logf("track *.dat from now on (files untouched)")
 	case "attrs-removed-later":
-		lines := []string{"# dat no longer tracked"}
-		if !g.opt.NoBin {
-			lines = append(lines, "*.bin "+lfsAttrs)
-		}
-		t[".gitattributes"] = g.attrsBlob(lines...)
+		t[".gitattributes"] = g.attrsBlob(append([]string{"# dat no longer tracked"}, lines...)...)
 		g.logf("untrack *.dat from now on (files untouched)")
 	}
 }
@@ -515,6 +514,9 @@ func (g *Gen) build() {
 				lab = "octopus-merge"
 			}
 			if g.opt.MergeOnlyLFS {
+				for _, p := range keysOf(t, func(p string, e Ent) bool { return strings.HasPrefix(p, "merged-") }) {
+					delete(t, p)
+				}
 				g.put(t, fmt.Sprintf("merged-%d.bin", len(g.C)), g.bytes(100+g.r.Intn(3000), false), "100644")
 				lab += "-with-own-changes"
 			} else if g.r.Intn(2) == 0 && !g.opt.NoEvilMerge {
@@ -544,9 +546,6 @@ func (g *Gen) build() {
 			g.tickle()
 		default:
 			t := g.C[g.Br[cur]].Tree.clone()
-			for _, p := range keysOf(t, func(p string, e Ent) bool { return strings.HasPrefix(p, "merged-") }) {
-				delete(t, p)
-			}
 			g.mutate(t)
 			g.fixupFlipOn(cur, t, n)
 			g.setBranch(cur, g.commit(t, []int{g.Br[cur]}))
@@ -573,7 +572,7 @@ func (g *Gen) fixupFlipOn(cur string, t Tree, n int) {
 		return // orphan tree without the line
 	}
 	if n >= g.attrFlip && g.attrFlip > 0 {
-		g.fixupFlip(t, g.attrFlip)
+		g.fixupFlip(t)
 		g.attrFlip = -1
 	}
 }
@@ -616,4 +615,15 @@ func (g *Gen) LabelsOf(sha string) []string {
 		}
 	}
 	return nil
+}
+
+// RawDatPaths lists the non-empty regular *.dat files of t that were committed raw.
+func (g *Gen) RawDatPaths(t Tree) []string {
+	ptr := map[string]bool{}
+	for _, s := range g.ptrBy {
+		ptr[s] = true
+	}
+	return keysOf(t, func(p string, e Ent) bool {
+		return strings.HasSuffix(p, ".dat") && (e.Mode == "100644" || e.Mode == "100755") && !ptr[e.Sha] && e.Sha != g.blobBy[sbx.Sha256Hex(nil)]
+	})
 }
